@@ -19,16 +19,16 @@ CLAIMED = {
  "C14": ("post-dominance and ordering of calls in the transcript methods' CFGs, value-identity dataflow, write-effect analysis (F7, W1)",
          "Static decision, for all call sequences, of: appends unconditional and complete; challenge = hash of everything pending, digest before reset, buffer cleared after hashing, same little-endian-reduced scalar re-absorbed and returned; canonical encodings absorbed; protocol label first; labels/messages never modified. SHA-256, the reduction arithmetic and collision resistance are not decided.",
          "4 C14, 3.2 F7"),
- "C06": ("call-graph who-may-call, must-pass-through on the CFG specialised to trusted=false and on the exported validating wrapper, canonical-only decoder rule, finite-outcome evaluation of the Legendre decision (D1-D4, D7, D12, W1)",
+ "C06": ("call-graph who-may-call, must-pass-through on the CFG specialised to trusted=false and on the exported validating wrapper, canonical-only decoder rule, finite-outcome evaluation of the Legendre decision, loop-exit discipline of the square-root code (D1-D4, D7, D12, R1, W1)",
          "Static decision, for all inputs and paths, that untrusted decoding can succeed only after: exact length, canonical decoding of x with its error propagated, on-curve test, subgroup test on that same x accepting exactly Legendre=+1 of 1-a*x^2, and (uncompressed) byte equality of the recomputed canonical y; that no untrusted entry point reaches an unchecked/reducing decoder; that decoders leave their buffer alone. Found and fixed DEF-1. Square-root/Legendre arithmetic not decided.",
          "4 C06, 3.3"),
- "C10": ("writer/reader layout extraction and comparison, EOF-probe rule, error-discipline must-pass rule, who-may-call, finite-outcome evaluation of the canonical-scalar decision (D1, D4-D7, W1)",
+ "C10": ("writer/reader layout extraction and comparison, EOF-probe rule, error-discipline must-pass rule, who-may-call, finite-outcome evaluation of the canonical-scalar decision, word coverage of setBigInt on both word sizes (D1, D4-D7, K10, W1)",
          "Static decision, for all inputs, reader chunkings and writer fault points, of: reader and writer agree on field order/count/encoding and with the spec order and log2(VectorLength); every point via the validating decoder, the scalar via the canonical one accepting exactly < r; trailing data rejected for every conforming reader (count constrained at the EOF probe); every error on read and write paths tested and propagated; Write does not modify the proof. Found and fixed DEF-3. Value-level round trip not decided.",
          "4 C10, 3.3"),
- "C16": ("write-effect analysis of every scalar decoder, finite-outcome evaluation of the canonical and SetBigInt decisions (W1, D4)",
+ "C16": ("write-effect analysis of every scalar decoder, finite-outcome evaluation of the canonical and SetBigInt decisions, no package variable written outside initialisers (W1, W2, D4)",
          "Static decision, for all byte strings, that no decoder writes the slice it is given (found and fixed DEF-2), that the canonical decoder accepts exactly Cmp(value,r) = -1 on the integer built from the input, and that SetBigInt's zero/direct shortcuts are taken only where they agree with reduction (all 9 outcomes). Mod/Montgomery arithmetic and byte-order tables (K4, pending) not decided here.",
          "4 C16, 3.1, 3.3 D4"),
- "C15": ("constant derivation with math/big from the modulus string, limb-alignment and carry-chain shape rules over the typed AST, write-effect analysis, finite evaluation of the limb-wise comparisons on all 81 limb orderings (K1, K2, W1, O1; Z1/W5/asm rules added as built)",
+ "C15": ("finite-outcome walk of the Euler criterion of Sqrt (K9), constant derivation with math/big from the modulus string, limb-alignment and carry-chain shape rules over the typed AST, write-effect analysis, finite evaluation of the limb-wise comparisons on all 81 limb orderings, and of the guard of every final subtraction of q on the same 81 (K1, K2, K11, W1, O1; Z1/W5/asm rules added as built)",
          "Static decision that every modulus-derived constant in package fr (limbs of q, R, R^2, (q-1)/2+1, -q^-1, exponents, the Sqrt generator) equals the value computed from the decimal modulus in the role its context implies, that limb k meets limb k with the same operands in the same order in every carry chain, comparison cascade and Montgomery round, and that operands are never written. These are necessary conditions; the numeric correctness of CIOS, inversion, Tonelli-Shanks and of the assembly is not decided.",
          "4 C15, 3.5"),
  "C12": ("goroutine/channel/pool discipline over SSA: per-goroutine slot classification of every write of every spawned function, join-before-use must-pass, channel capacity/count agreement, commutative fan-in, captured-cell stores, pool use-after-Put; plus write-effect immutability of shared state (G1-G7, W2, W3)",
@@ -37,37 +37,37 @@ CLAIMED = {
  "C20": ("CFG post-dominance/ordering and per-iteration-cell analysis of the executor, difference-bound analysis of the ranges, symbolic execution of one loop iteration with polynomial identities for the partition (G7, G5, G3, I1, I2, S2)",
          "Static decision of the synchronisation clauses ONLY: Execute returns only after every invocation returned (Add before each spawn, Done after work on every path of the child, Wait on every path to return), each child calls work exactly once with the two values computed for its own iteration, one spawn per iteration; callers size result channels by the value they pass as the worker limit. NOT decided: the range arithmetic (disjoint contiguous cover of [0,n), at most min(n,m) invocations, no empty/out-of-bounds range) - it quantifies over integer values of n and m and needs enumeration or a solver, both outside this technique family; a remainder-distribution bug is not detected.",
          "4 C20, 3.6 G7"),
- "C03": ("Fiat-Shamir schedule extraction vs frozen spec table, layout extraction, commutativity of fan-in combiners, write-effect immutability (F1,F2,F4,F7,D5,G2-G4,W2,W3)",
+ "C03": ("Fiat-Shamir schedule extraction vs frozen spec table, layout extraction, commutativity of fan-in combiners, write-effect immutability, constant folding of the domain quotient for every index (F1,F2,F4,F7,D5,G2-G4,W2,W3,Q5)",
          "Static decision that labels, absorb order and loop structure equal the specification for prover and verifier, that openings are absorbed with their own index, that canonical encodings are what is hashed and serialised in the order D|L|R|a, that every merge in goroutine-completion order uses a commutative-associative combiner and takes each worker result exactly once, and that no call writes state a later call reads. Byte-for-byte equality with an independent implementation on concrete inputs and independence from the MSM window choice (group-law correctness) are not decided.",
          "4 C03, 3.2, 3.3 D5, 3.6 G4"),
  "C09": ("aligned-pair dataflow at call sites, dispatch/constant evaluation, chunk-coverage enumeration over constant-trip loops and the split branches, guarded-decrement dominance, length-guard dominance, loop-progress idiom, goroutine discipline, write effects (M1-M5, LG, T1, G1-G5, W1)",
          "Static decision, for every size, task count and schedule, that points/scalars stay paired through all wrappers/splits/chunks, flags reach the inner routine, every selectable width has an implementation with consistent constants, every chunk is processed and consumed exactly once (chunk j via channel j), v-1 indexes are guarded, length mismatch errors before slicing, the sizing loop makes progress, goroutines are joined and channels fit (so the call cannot block on its own channels). That bucket accumulation/reduction and digit recoding compute sum s_i P_i is not decided.",
          "4 C09, 3.4, 3.6"),
- "C01": ("schedule extraction vs spec, parallel-index agreement, shape-check dominance, worker-split idiom recognition, join/channel agreement, index-domain type inference incl. compacted positions (F1,F2,F4,F6,S1,G2,G3,M6)",
+ "C01": ("schedule extraction vs spec, parallel-index agreement, shape-check dominance, worker-split idiom recognition, join/channel agreement, index-domain type inference incl. compacted positions, constant folding of the domain quotient for every index (F1,F2,F4,F6,S1,G2,G3,M6,Q5)",
          "Static decision, for every number of openings, evaluation-point pattern and CPU count, of the structural completeness clauses: prover and verifier replay the specified schedule; openings handled as aligned triples; every array indexed by an index of its own domain - in particular the inverse denominators by compacted position; the worker split is a ceil-division cover with clipped ranges and one receive per worker. The protocol algebra (that an honest proof satisfies the final equation) is not decided.",
          "4 C01, 3.2, 3.4 M6"),
- "C04": ("finite-outcome evaluation of the domain switch, initialiser/immutability of the bound, call/argument identity of the b-vector, verifier dominance rules, index/range rules on the IPA vector helpers, table write coverage, 81-ordering evaluation of Cmp (D4,B1,W2,F5,F6,V1-V4,M7,O1)",
+ "C04": ("finite-outcome evaluation of the domain switch, initialiser/immutability of the bound, call/argument identity of the b-vector, verifier dominance rules, index/range rules on the IPA vector helpers, table write coverage, 81-ordering evaluation of Cmp, zero-skips confined to vanishing terms (D4,B1,W2,F5,F6,V1-V4,Z3,M7,O1)",
          "Static decision that the in-domain/out-of-domain switch happens exactly between 255 and 256 (barycentric branch iff Cmp = +1, bound = VectorLength-1, never written), that prover and verifier derive b from the same function of the same evaluation point with the unit vector at the regular-form index, and the IPA verifier's acceptance/shape structure. That the coefficients interpolate and wrong results are rejected is not decided.",
          "4 C04"),
  "C05": ("value-identity dataflow in the constructor, index agreement, guarded-decrement dominance, constant evaluation of window parameters, write-effect immutability, dependency analysis of the mixed addition formula (P1,M1,M5,M9,K6,K7,W1,W3)",
          "Narrow structural claim: the tables Commit uses are built from the published SRS, table i from point i, scalar i meets table i; every table index w-1 is guarded by w != 0 on the same value; window sizes divide 64 and the top window plus carry stays below half range; tables and configuration are immutable after construction. NOT decided: everything numeric - table contents, that the signed recoding sums to the scalar, mixed addition being the group law, linearity.",
          "4 C05"),
- "C07": ("exhaustive outcome evaluation of the Equal guard, operand identity of the cross products, edge-sensitive sign-convention and normalisation rules, decoder must-pass rules (E1-E4,D2,W1)",
+ "C07": ("folding of Normalize on a generic projective point (N3), exhaustive outcome evaluation of the Equal guard, operand identity of the cross products, edge-sensitive sign-convention and normalisation rules, decoder must-pass rules, folded endomorphism of the identity class behind a guard (E1-E5,D2,W1)",
          "Static decision that Equal is never true when either side is all-zero (16/16 outcomes), compares p.X*other.Y with p.Y*other.X and writes nothing; that both encoders negate x exactly when y is not the lexicographically largest root and serialise affine coordinates, and the decoders request that same root. Injectivity of the encoding on the group and behaviour over operation histories need the group law and are not decided.",
          "4 C07"),
  "C08": ("callee/operand identity table for the wrappers, field/limb-granular alias-hazard dataflow, write-effect analysis (L1,W5,W1,W2,K6)",
          "Static decision that each wrapper delegates to the matching gnark operation on the matching operands (regular-form scalar, private negated copy in Sub), that operands are never written, that no routine reads an operand coordinate after overwriting the same coordinate of a possibly-aliased output, and that Generator/Identity are immutable with Identity=(0,1,1). The group law itself (in a dependency) is not decided.",
          "4 C08, 3.1 W5"),
- "C11": ("field-provenance of the quotient operands, batch index agreement, callee-sequence agreement, length-guard dominance (N1,N2,U4,LG,W1)",
+ "C11": ("field-provenance of the quotient operands, batch index agreement, callee-sequence agreement, length-guard dominance, delegation of the batch inversion (N1,N2,U4,U5,LG,W1)",
          "Static decision that both variants compute X/Y of the same element, read only X and Y (so the result is invariant under projective rescaling and (x,y)->(-x,-y) by structure), pair element i with inverse i and output i, convert with the same little-endian reducing pair, and reject a length mismatch before indexing. The numeric value and injectivity are not decided.",
          "4 C11"),
  "C17": ("abstract interpretation of the addition chain over exponents, symbolic evaluation of the curve equation, nil-propagation must-pass rules, finite-outcome sign selection, loop-exit/coverage rules on the dyadic reconstruction (K5,Y1,Y2,R1,D4,W1)",
          "Static decision that the chain computes z^((Q-1)/2), z^Q, z^((Q+1)/2) for the odd part Q of p-1 computed from the modulus constants, that BaseField2Adicity and the block parameters are consistent, that y^2=(A x^2-1)/(D x^2-1) is formed with A and D in the right places, that nil propagates exactly through GetPointFromX/computeY/SqrtPrecomp with zero for zero, that the requested root is returned on all four sign combinations, and that arguments are not written. The dyadic discrete-log reconstruction (table contents) - hence 'nil exactly for non-residues' as a value statement - is not decided.",
          "4 C17, 3.5 K5"),
- "C18": ("affine-form layout comparison of table writers and readers, index-domain typing, operand-orientation and self-term dataflow rules, sign-outcome evaluation (M7,M6,Q1,Q2,D4,W1,W3)",
+ "C18": ("constant folding of the closed table constructor and, index by index, of DivideOnDomain / ComputeBarycentricCoefficients over symbolic tables (integers and control flow folded through the SSA form, field values as uninterpreted terms; M12,Q5,Q6), affine-form layout comparison of table writers and readers, index-domain typing, sign-outcome evaluation (M7,M6,Q1,Q2,D4,W1,W3)",
          "Static decision that writers and readers of the two concatenated tables agree on positions, midpoints and lengths (negative half selected by the sign alone), that every index is of its array's domain, that numerator and denominator have the same orientation, that the self term is accumulated only for i != index with ratio A'(index)/A'(i) and q[i] of the same i, and that f and the tables are never written. That the formulas are the polynomial quotient/interpolation, and the table contents, are not decided.",
          "4 C18, 3.4 M7"),
- "C19": ("reachability (no write before error), de-duplication provenance, layout/sign-convention agreement of batch vs single encoders, index agreement, goroutine discipline (U1-U4,E2,E3,N1,N2,Z1,G1,G2,W1)",
+ "C19": ("reachability (no write before error), de-duplication provenance, layout/sign-convention agreement of batch vs single encoders, index agreement, goroutine discipline, delegation of the batch inversion (U1-U5,E2,E3,N1,N2,Z1,G1,G2,W1)",
          "Static decision that batch normalisation is all-or-nothing (no element write can precede an error return), writes exactly the de-duplicated elements (a duplicate-free slice built from map keys filled from all inputs) with inverse i for element i, that batch and single serialisers/map-to-field share convention, normalisation and layout, that the trusted decoder inverts the uncompressed layout, and that workers are joined before return. Position-by-position value equality is not decided.",
          "4 C19"),
 }
